@@ -328,10 +328,17 @@ def gumbel_sigmoid(logits, tau=1.0, hard=False, threshold=0.5):
 
     return y_soft
 
+def _check_temperature(tau):
+    # tau = 0 gives NaN, tau < 0 prefers the least likely gate, NaN propagates: none of them is a temperature
+    if not tau > 0:
+        raise ValueError("Temperature must be positive")
+
 def soft_raw(logits, tau=1.0):
+    _check_temperature(tau)
     return torch.nn.functional.softmax(logits / tau, dim=-1)
 
 def hard_raw(logits, tau=1.0):
+    _check_temperature(tau)
     x = torch.nn.functional.softmax(logits / tau, dim=-1)
     # Straight through. The gate is the argmax of the logits themselves (as in eval mode): after the division,
     # exp and normalisation two different logits can round to the same softmax value
@@ -342,9 +349,11 @@ def hard_raw(logits, tau=1.0):
     return x_hard - x.detach() + x
 
 def soft_walsh(logits, tau=1.0):
+    _check_temperature(tau)
     return torch.sigmoid(logits / tau)
 
 def hard_walsh(logits, tau=1.0):
+    _check_temperature(tau)
     x = torch.sigmoid(logits / tau)
     # threshold the form itself: sigmoid(logits / tau) rounds to exactly 0.5 for tiny positive logits / tau
     x = (logits > 0).to(torch.float32) - x.detach() + x
